@@ -304,6 +304,8 @@ def cases(tier, seed):
                                 name="%s-%s-%s" % (cls.__name__, sg, rate.replace(":", "to")), cost=1))
     for mt in ("LPDDR4", "LPDDR5-2", "LPDDR5-4"):
         out.append(dict(kind=mt, seed="C17/%d/%s" % (seed, mt), name=mt, cost=1))
+    for mt in ("DDR2", "DDR3", "DDR4"):
+        out.append(dict(kind="explicit", memtype=mt, seed="C17/%d/explicit/%s" % (seed, mt), name="explicit-latencies-" + mt, cost=2))
     for k in range(6 if tier == "quick" else 24):
         out.append(dict(kind="variants", idx=k, seed="C17/%d/var/%d" % (seed, k), name="variants-%d" % k, cost=1))
     return out
@@ -331,7 +333,9 @@ def _run_one(phy, timing, geom, ctx, viol, sigs, stats, with_headers):
         if len(viol) < 60:
             viol.append(w)
     except (KeyError, ValueError, AssertionError, IndexError) as e:
-        if len(viol) < 60:
+        if ctx.get("explicit") and isinstance(e, KeyError):
+            stats["unsupported"] = stats.get("unsupported", 0) + 1      # a latency the generator's table does not offer
+        elif len(viol) < 60:
             viol.append(dict(kind="generator-raised", error=repr(e), memtype=phy.memtype, cl=phy.cl, cwl=phy.cwl,
                              config={k: v for k, v in ctx.items() if k in ("cls", "speedgrade", "rate", "clk_freq", "electrical")}))
     stats["calls"] += 1
@@ -415,6 +419,27 @@ def run_case(case):
             if info.get("WR") is not None and info.get("WR") != nwr:
                 viol.append(dict(kind="init-contract", memtype="LPDDR5", problems=[dict(problem="nWR does not belong to the RL/WL row",
                                                                                          programmed=info.get("WR"), row=nwr)]))
+    elif case["kind"] == "explicit":
+        # latencies passed explicitly to the PHY (S7DDRPHY / USDDRPHY take cl / cwl arguments; the default table only ever
+        # selects a few of them): every CL x CWL the JEDEC mode-register tables define
+        from .. import jedec as J
+        mt = case["memtype"]
+        if mt == "DDR2":
+            combos = [(cl, cl - 1) for cl in (3, 4, 5, 6, 7)]
+            cls, n, clk = M.MT47H64M16, 2, 100e6
+        elif mt == "DDR3":
+            combos = [(cl, cwl) for cl in sorted(set(J.DDR3_CL.values())) for cwl in (5, 6, 7, 8, 9, 10, 11, 12)]
+            cls, n, clk = M.MT41K128M16, 4, 100e6
+        else:
+            combos = [(cl, cwl) for cl in sorted(set(J.DDR4_CL.values())) for cwl in sorted(set(J.DDR4_CWL.values()))]
+            cls, n, clk = M.MT40A512M16, 4, 200e6
+        module = cls(clk, "1:%d" % n)
+        for (cl, cwl) in combos:
+            phy = _phy_for(mt, n, clk)
+            phy.cl, phy.cwl = cl, cwl
+            ctx = dict(tck_ns=None, check_wr_upper=False, explicit=True, cls="%s explicit CL=%d CWL=%d" % (mt, cl, cwl),
+                       rate="1:%d" % n, clk_freq=clk, electrical=None)
+            _run_one(phy, module.timing_settings, module.geom_settings, ctx, viol, sigs, stats, with_headers=(cl % 4 == 1))
     else:
         # RDIMM and clam-shell variants of DDR4, C vs Python rendering
         cls = M.MTA18ASF2G72PZ if case["idx"] % 2 == 0 else M.MT40A512M16
